@@ -313,6 +313,10 @@ where
 }
 
 pub(crate) const BUFFER_SIZE: usize = 256;
+#[cfg(not(zlink_verif_small_buf))]
 const MAX_BUFFER_SIZE: usize = 100 * 1024 * 1024; // Don't allow buffers over 100MB.
+// Lowered limit so that verification harnesses can sweep the boundary exhaustively.
+#[cfg(zlink_verif_small_buf)]
+const MAX_BUFFER_SIZE: usize = 4096;
 
 static NEXT_ID: AtomicUsize = AtomicUsize::new(0);
